@@ -279,7 +279,7 @@ def cases(ctx):
                 out.append((seq, 1, 1))
                 out.append((seq, 1, 2))
     # large single terminals
-    for sz in (2, 200, 1400, 1472):
+    for sz in (2, 200, 1400, 1471, 1472, 1473, 1474, 1475):
         for rw in (False, True):
             for f in (True, False):
                 out.append((((sz, 0, rw, f),), 1))
